@@ -60,7 +60,10 @@ fn case_typed<S: Spec>(sub: &str, id: u64, forced: Option<(usize, bool)>, first_
     // snapshot through both formats
     let bytes = S::bincode(&orig).unwrap();
     let text = S::json(&orig).unwrap();
-    let restored = [("bincode", S::from_bincode(&bytes).unwrap()), ("json", S::from_json(&text).unwrap())];
+    // (third reader: the same JSON document with object members in another order)
+    let reordered = reorder_json(&text, (id % 3) as u8);
+    r.cov("json_members_reordered");
+    let restored = [("bincode", S::from_bincode(&bytes).unwrap()), ("json", S::from_json(&text).unwrap()), ("json_members_reordered", S::from_json(&reordered).unwrap())];
     let cont = {
         let n = p.range(4, 24) as usize;
         let mut c = gen_history::<S>(&mut p, n);
@@ -313,8 +316,77 @@ fn structured_case<S: Spec>(sub: &str, id: u64, r: &mut Report) {
     r.distinct(hkey(&[&"structured", &S::NAME, &seed]));
 }
 
+/// Snapshots taken while the buffer of an IsaacRng holds a RARE WORD (0 or all ones,
+/// about 2^-31 per word) ahead of the read position. Such states cannot be aimed at
+/// through the API (the output is a cryptographic function of the seed), so they are
+/// searched for: each case scans 4096 blocks of one stream (about 1 us per block) and,
+/// on a hit, snapshots the generator at several read positions inside that block.
+/// Encodings that treat particular values specially (sparse / run-length / "skip
+/// defaults") show up only here.
+fn rare_word_case(sub: &str, id: u64, r: &mut Report) {
+    use rand_core::{RngCore, SeedableRng};
+    type S = SIsaac;
+    let mut p = Prng::new(id);
+    let seed: [u8; 32] = p.bytes(32).try_into().unwrap();
+    let blocks = if crate::util::REDUCED.load(std::sync::atomic::Ordering::Relaxed) { 4 } else { 4096 };
+    let mut g = rand_isaac::IsaacRng::from_seed(seed);
+    let mut buf = [0u8; 1024];
+    let mut hits: Vec<(usize, usize, u32)> = Vec::new();
+    for blk in 0..blocks {
+        g.fill_bytes(&mut buf);
+        for (j, w) in buf.chunks_exact(4).enumerate() {
+            let v = u32::from_le_bytes([w[0], w[1], w[2], w[3]]);
+            if v == 0 || v == u32::MAX {
+                hits.push((blk, j, v));
+            }
+        }
+    }
+    r.covn("rare_word_blocks_scanned", blocks as u64);
+    for (blk, j, v) in hits.into_iter().take(2) {
+        // the same stream again, up to the block that holds the rare word at position j
+        let mut g = rand_isaac::IsaacRng::from_seed(seed);
+        for _ in 0..blk { g.fill_bytes(&mut buf); }
+        for pos in [1usize, j / 2 + 1, j, j + 1, 255] {
+            let mut orig = g.clone();
+            for _ in 0..pos.min(255) { orig.next_u32(); }
+            let mut twin = orig.clone();
+            let bytes = S::bincode(&orig).unwrap();
+            let text = S::json(&orig).unwrap();
+            let desc = json!({"type": "IsaacRng", "seed": hex(&seed), "block": blk, "rare_word": hx32(v), "rare_word_position_in_block": j, "words_read_from_block": pos.min(255)});
+            for (fmt, res) in [("bincode", S::from_bincode(&bytes).unwrap()), ("json", S::from_json(&text).unwrap())] {
+                r.eval();
+                let mut d = desc.clone();
+                d["format"] = json!(fmt);
+                match res {
+                    Err(e) => { d["error"] = json!(e); r.violation(format!("IsaacRng:deserialize_failed:{}:rare_word_in_buffer", fmt), sub, id, d); return; }
+                    Ok(mut back) => {
+                        let mut t2 = twin.clone();
+                        for k in 0..600 {
+                            if back.next_u32() != t2.next_u32() {
+                                d["continuation_word"] = json!(k);
+                                r.violation(format!("IsaacRng:restored_future_differs:{}:rare_word_in_buffer", fmt), sub, id, d);
+                                return;
+                            }
+                        }
+                    }
+                }
+            }
+            // serializing must not disturb the original
+            r.eval();
+            if orig.next_u32() != twin.next_u32() {
+                r.violation("IsaacRng:serialize_disturbed_the_generator:rare_word_in_buffer".into(), sub, id, desc);
+                return;
+            }
+        }
+        r.cov("rare_word_snapshots");
+        r.cov(&format!("rare_word:{}", if v == 0 { "zero" } else { "ones" }));
+        r.distinct(hkey(&[&"rare_word", &seed.to_vec(), &blk]));
+    }
+}
+
 fn case(sub: &str, id: u64, r: &mut Report) {
     match sub {
+        "rare_word" => rare_word_case(sub, id, r),
         "structured" => {
             let ti = (id / 64) as usize;
             with_spec!(ti, S => { if S::HAS_SERDE { structured_case::<S>(sub, id, r) } });
@@ -371,6 +443,9 @@ pub fn run(ctx: &Ctx, only: Option<&Only>) -> Report {
     let secs = if ctx.tier_thorough { ctx.budget_s } else { 0.0 };
     total.merge(drive(ctx, "snapshot", 20_000, secs * 0.9, |id, r| case("snapshot", id, r)));
     total.merge(drive(ctx, "cores", 1_000, secs * 0.1, |id, r| case("cores", id, r)));
+    // 6000 x 4096 blocks x 256 words: about 2.9 expected rare words per unit of scale
+    total.merge(drive(ctx, "rare_word", 6_000, secs * 0.3, |id, r| case("rare_word", id, r)));
+    total.floor("rare_word_blocks_scanned", 20_000_000);
     total.floor("structured_snapshots", 100);
     total.floor("cores:IsaacCore", 100);
     total.floor("cores:Isaac64Core", 100);
